@@ -397,4 +397,254 @@ theorem lx_prS (d : Gen.D) (s : Select) (hs : FragS d s = true) (hl : LeafS d s)
     · exact hlimit y h
   exact Lx.congr (lx_lines _ (selC d dist c cs) hsel hall) (by simp [prSL, clauses]) (by simp [clauses])
 
+/-! ## the printed text is left alone by the lexer's pre-pass -/
+
+abbrev allP (l : List Char) : Bool := l.all plain
+
+theorem allP_joinLL (sep : List Char) (hs : allP sep = true) : ∀ (l : List (List Char)), (∀ x ∈ l, allP x = true) →
+    allP (joinLL sep l) = true
+  | [], _ => rfl
+  | [a], h => h a (by simp)
+  | a :: b :: r, h => by
+    have := allP_joinLL sep hs (b :: r) fun x hx => h x (by simp [hx])
+    simp only [joinLL, allP, List.all_append, Bool.and_eq_true] at this ⊢
+    exact ⟨⟨h a (by simp), hs⟩, this⟩
+
+theorem alnum_plain (c : Char) (h : alnumU c = true) : plain c = true := by
+  have hc := alnumU_code c h
+  have hne : ∀ k : Char, 127 < k.toNat ∨ k.toNat < 32 → k ≠ c := by
+    intro k hk e; subst e
+    have := hc.1
+    simp only [alnumN, Bool.or_eq_true, Bool.and_eq_true, Nat.ble_eq, Nat.beq_eq] at this
+    omega
+  simp only [plain, Plain, Gen.preChain, List.all_cons, List.all_nil, Bool.and_true, Bool.and_eq_true, bne_iff_ne, ne_eq]
+  exact ⟨hne _ (by decide), hne _ (by decide), hne _ (by decide)⟩
+
+theorem plainL_allP (a : List Char) (h : plainL a = true) : allP a = true := by
+  cases a with
+  | nil => rfl
+  | cons c r =>
+    simp only [plainL, Bool.and_eq_true, List.all_eq_true] at h
+    simp only [allP, List.all_cons, Bool.and_eq_true, List.all_eq_true]
+    exact ⟨alnum_plain c (plainL_head c h.1), fun x hx => alnum_plain x (h.2 x hx)⟩
+
+theorem clause_words_plain : clauseWords.all (fun k => allP k.toList) = true := by decide +kernel
+theorem join_words_plain : Gen.joinTypes.all (fun e => e.2.all fun w => allP w.toList) = true := by decide +kernel
+
+theorem allP_alias (a : Option String) (h : optAliasLex a) : allP (aliasL a) = true := by
+  cases a with
+  | none => rfl
+  | some a =>
+    have h1 : allP " AS ".toList = true := by decide +kernel
+    have h2 := plainL_allP a.toList (by rw [← isPlainName_plainL]; exact h.1)
+    simp only [aliasL, allP, List.all_append, Bool.and_eq_true] at h1 h2 ⊢
+    exact ⟨h1, h2⟩
+
+theorem allP_prEL (d : Gen.D) (e : Expr) (hf : Frag d e = true) (hl : Leaf d e) : allP (prEL d e) = true :=
+  plain_prEL d (sz e) e (Nat.le_refl _) hf hl
+
+theorem allP_key (d : Gen.D) (e : Expr) (hf : Frag d e = true) (hl : Leaf d e) : allP (keyL d e) = true := by
+  have := allP_prEL d e hf hl
+  have hp : plain '(' = true ∧ plain ')' = true := by decide
+  unfold keyL wrapL
+  split <;> simp_all [allP]
+
+theorem allP_table (t : FromTable) (h : tableLex t) : allP (tableL t) = true := by
+  obtain ⟨r, a⟩ := t
+  have hq : plain '`' = true := by decide
+  have ha := allP_alias a h.2
+  have hn : allP (tblName r).toList = true := List.all_eq_true.mpr fun x hx => (h.1 x hx).2
+  simp only [tableL, allP, List.all_cons, List.all_append, List.all_nil, Bool.and_true, Bool.and_eq_true] at ha hn ⊢
+  exact ⟨⟨hq, hn, hq⟩, ha⟩
+
+theorem allP_numeral (n : Int) (h : 0 ≤ n) : allP (toString n).toList = true :=
+  List.all_eq_true.mpr fun x hx => digit_plain x ((toString_nonneg n h).2 x hx)
+
+/-- every character of the printed SELECT is left alone by the lexer's pre-pass -/
+theorem plain_prSL (d : Gen.D) (s : Select) (hs : FragS d s = true) (hl : LeafS d s) : allP (prSL d s) = true := by
+  obtain ⟨ws, dist, cols, fr, lats, js, wh, gb, hv, ob, sb, db, cb, lm⟩ := s
+  cases ws with
+  | none => simp [FragS] at hs
+  | some w =>
+  cases w with
+  | cons a b => simp [FragS] at hs
+  | nil =>
+  cases cols with
+  | nil => simp [FragS] at hs
+  | cons c cs =>
+  cases lats with
+  | cons a b => simp [FragS] at hs
+  | nil =>
+  cases sb with
+  | some a => simp [FragS] at hs
+  | none =>
+  cases db with
+  | some a => simp [FragS] at hs
+  | none =>
+  cases cb with
+  | some a => simp [FragS] at hs
+  | none =>
+  simp only [FragS, Bool.and_eq_true] at hs
+  obtain ⟨⟨⟨⟨⟨⟨⟨⟨⟨hc, hcs⟩, _⟩, hfr⟩, hjs⟩, hwh⟩, hgb⟩, hhv⟩, hob⟩, hlm⟩ := hs
+  obtain ⟨lc, lfr, ljs, lwh, lgb, lhv, lob⟩ := hl
+  have hcs2 : allP [',', ' '] = true := by decide
+  have hb : plain ' ' = true := by decide
+  have kw : ∀ k : String, k ∈ clauseWords → allP k.toList = true := fun k hk => (List.all_eq_true.mp clause_words_plain) k hk
+  have kwThen : ∀ (k : String) (x : List Char), k ∈ clauseWords → allP x = true → allP (k.toList ++ ' ' :: x) = true := by
+    intro k x hk hx
+    have := kw k hk
+    simp only [allP, List.all_append, List.all_cons, Bool.and_eq_true] at this hx ⊢
+    exact ⟨this, hb, hx⟩
+  have hcol : ∀ y ∈ c :: cs, allP (colL d y) = true := by
+    intro y hy
+    have hfy : colOKS d y = true := by
+      rcases List.mem_cons.mp hy with rfl | h
+      · exact hc
+      · exact (List.all_eq_true.mp hcs) y h
+    simp only [colOKS, Bool.and_eq_true] at hfy
+    have h1 := allP_prEL d y.1 hfy.1 (lc y hy).1
+    have h2 := allP_alias y.2 (lc y hy).2
+    simp only [colL, allP, List.all_append, Bool.and_eq_true] at h1 h2 ⊢
+    exact ⟨h1, h2⟩
+  have hsel : allP (selC d dist c cs).1 = true := by
+    have hcols := allP_joinLL [',', ' '] hcs2 ((c :: cs).map (colL d)) (by
+      intro x hx; obtain ⟨y, hy, rfl⟩ := List.mem_map.mp hx; exact hcol y hy)
+    cases dist with
+    | false => exact kwThen "SELECT" _ (by simp [clauseWords]) (by simpa using hcols)
+    | true =>
+      have e1 : ("DISTINCT " : String).toList = "DISTINCT".toList ++ [' '] := rfl
+      have := kwThen "SELECT" _ (by simp [clauseWords]) (kwThen "DISTINCT" _ (by simp [clauseWords]) hcols)
+      simpa [selC, e1] using this
+  have hlines : ∀ x ∈ (clauses d (.mk (some []) dist (c :: cs) fr [] js wh gb hv ob none none none lm)).map (·.1), allP x = true := by
+    intro x hx
+    simp only [clauses, List.map_cons, List.map_append, List.mem_cons, List.mem_append] at hx
+    rcases hx with rfl | h | h | h | h | h | h | h
+    · exact hsel
+    · -- FROM
+      cases fr with
+      | none => simp [fromC] at h
+      | some l =>
+        cases l with
+        | nil => simp [fromC] at h
+        | cons t ts =>
+          simp only [fromC, List.map_cons, List.map_nil, List.mem_singleton] at h
+          subst h
+          exact kwThen "FROM" _ (by simp [clauseWords]) (allP_joinLL _ hcs2 ((t :: ts).map tableL) (by
+            intro x hx; obtain ⟨y, hy, rfl⟩ := List.mem_map.mp hx; exact allP_table y (lfr _ rfl y hy)))
+    · -- JOINs
+      simp only [List.map_map] at h
+      obtain ⟨j, hj, rfl⟩ := List.mem_map.mp h
+      obtain ⟨ty, t, rule⟩ := j
+      have hjo := (List.all_eq_true.mp hjs) _ hj
+      have hjl := ljs _ hj
+      simp only [joinOK, Bool.and_eq_true] at hjo
+      have hwds : allP (joinWordsL ty) = true := by
+        unfold joinWordsL
+        cases hf : Gen.joinTypes.find? (·.1 == ty) with
+        | none => rfl
+        | some e =>
+          have hm := List.mem_of_find?_eq_some hf
+          have hw := List.all_eq_true.mp ((List.all_eq_true.mp join_words_plain) e hm)
+          exact allP_joinLL [' '] (by decide) _ (by
+            intro x hx; obtain ⟨y, hy, rfl⟩ := List.mem_map.mp hx; exact hw y hy)
+      have htb := allP_table t hjl.1
+      have hru : allP (ruleL d rule) = true := by
+        cases rule with
+        | none => rfl
+        | some r =>
+          cases r with
+          | on e =>
+            have h1 : allP " ON ".toList = true := by decide +kernel
+            have h2 := allP_prEL d e hjo.2 hjl.2
+            simp only [ruleL, allP, List.all_append, Bool.and_eq_true] at h1 h2 ⊢
+            exact ⟨h1, h2⟩
+          | «using» u => simp [ruleOK] at hjo
+      simp only [Function.comp, joinC, allP, List.all_append, List.all_cons, Bool.and_eq_true] at hwds htb hru ⊢
+      exact ⟨hwds, hb, htb, hru⟩
+    · cases wh with
+      | none => simp [optC] at h
+      | some e =>
+        simp only [optC, List.map_cons, List.map_nil, List.mem_singleton] at h
+        subst h
+        exact kwThen "WHERE" _ (by simp [clauseWords]) (allP_prEL d e hwh lwh)
+    · cases gb with
+      | none => simp [groupC] at h
+      | some g =>
+        obtain ⟨gc, sets, cube, rollup⟩ := g
+        cases gc with
+        | nil => simp [groupC] at h
+        | cons e es =>
+          cases sets with
+          | some x => simp [groupOK] at hgb
+          | none =>
+          cases cube with
+          | true => simp [groupOK] at hgb
+          | false =>
+          cases rollup with
+          | true => simp [groupOK] at hgb
+          | false =>
+          simp only [groupOK, Bool.and_eq_true] at hgb
+          simp only [groupC, List.map_cons, List.map_nil, List.mem_singleton] at h
+          subst h
+          have e1 : ("GROUP BY" : String).toList = "GROUP".toList ++ ' ' :: "BY".toList := rfl
+          have := kwThen "GROUP" _ (by simp [clauseWords]) (kwThen "BY" _ (by simp [clauseWords])
+            (allP_joinLL _ hcs2 ((e :: es).map (keyL d)) (by
+              intro x hx; obtain ⟨y, hy, rfl⟩ := List.mem_map.mp hx
+              rcases List.mem_cons.mp hy with rfl | hy'
+              · exact allP_key d _ hgb.1.1 (lgb _ (by simp))
+              · exact allP_key d y ((List.all_eq_true.mp hgb.1.2) y hy') (lgb y (by simp [hy'])))))
+          simpa [e1] using this
+    · cases hv with
+      | none => simp [optC] at h
+      | some e =>
+        simp only [optC, List.map_cons, List.map_nil, List.mem_singleton] at h
+        subst h
+        exact kwThen "HAVING" _ (by simp [clauseWords]) (allP_prEL d e hhv lhv)
+    · cases ob with
+      | none => simp [orderC] at h
+      | some l =>
+        cases l with
+        | nil => simp [orderC] at h
+        | cons o os =>
+          simp only [orderOK, Bool.and_eq_true] at hob
+          simp only [orderC, List.map_cons, List.map_nil, List.mem_singleton] at h
+          subst h
+          have hitem : ∀ y ∈ o :: os, allP (ordItemL d y) = true := by
+            intro y hy
+            have hfy : ordOK d y = true := by
+              rcases List.mem_cons.mp hy with rfl | h'
+              · exact hob.1
+              · exact (List.all_eq_true.mp hob.2) y h'
+            obtain ⟨e, desc, nf, nl⟩ := y
+            simp only [ordOK, Bool.and_eq_true] at hfy
+            have hk := allP_key d e hfy.1.1 (lob _ hy)
+            have hd : allP " DESC".toList = true := by decide +kernel
+            cases desc <;> simp_all [ordItemL, allP]
+          have e1 : ("ORDER BY" : String).toList = "ORDER".toList ++ ' ' :: "BY".toList := rfl
+          have := kwThen "ORDER" _ (by simp [clauseWords]) (kwThen "BY" _ (by simp [clauseWords])
+            (allP_joinLL _ hcs2 ((o :: os).map (ordItemL d)) (by
+              intro x hx; obtain ⟨y, hy, rfl⟩ := List.mem_map.mp hx; exact hitem y hy)))
+          simpa [e1] using this
+    · cases lm with
+      | none => simp [limitC] at h
+      | some pr =>
+        obtain ⟨n, m⟩ := pr
+        cases m with
+        | none =>
+          simp only [limitOK, limOK, Bool.and_eq_true, decide_eq_true_eq] at hlm
+          simp only [limitC, List.map_cons, List.map_nil, List.mem_singleton] at h
+          subst h
+          exact kwThen "LIMIT" _ (by simp [clauseWords]) (allP_numeral n hlm.1)
+        | some m =>
+          simp only [limitOK, limOK, Bool.and_eq_true, decide_eq_true_eq] at hlm
+          simp only [limitC, List.map_cons, List.map_nil, List.mem_singleton] at h
+          subst h
+          have h1 := allP_numeral m hlm.2.1
+          have h2 := allP_numeral n hlm.1.1
+          have hcm : plain ',' = true := by decide
+          refine kwThen "LIMIT" _ (by simp [clauseWords]) ?_
+          simp only [allP, List.all_append, List.all_cons, Bool.and_eq_true] at h1 h2 ⊢
+          exact ⟨h1, hcm, hb, h2⟩
+  exact allP_joinLL ['\n'] (by decide) _ hlines
+
 end LexLink
